@@ -52,6 +52,23 @@
 (*        "alloc"  additionally every operator new / operator delete call  *)
 (*                 made by the storage is a step of its own                *)
 (*                                                                         *)
+(* Addresses: every policy owns a memory AREA per frame (a heap block, the   *)
+(*   elements [data(), data()+size()) of the buffer's vector, the alloca   *)
+(*   block, the placement buffer); fr[i].blk is its size and fr[i].at the  *)
+(*   offset of the frame's first byte from the first byte of the area: the *)
+(*   frame occupies [at, at + size) of it (LargeEnough).  Memory of the    *)
+(*   caller (buffer, placement) may begin at any address (env.boff = the   *)
+(*   address mod 16: vectors with an allocator of the user, pmr vectors in *)
+(*   an arena, a char array).                                              *)
+(*                                                                         *)
+(* Destructor of the attached object: promise_extra_storage::dealloc       *)
+(*   (coro_storage.h:244-248) runs `x->~T()` -- code of the user, which    *)
+(*   may create and complete coroutines, also on the same storage (for     *)
+(*   reusable_storage_mtsafe another thread may do so meanwhile) -- and    *)
+(*   only THEN gives the block back to the base policy: DtorBegin ...      *)
+(*   DtorEnd (DtorFirst = TRUE; FALSE is the model of the opposite order,  *)
+(*   which the invariants reject).                                         *)
+(*                                                                         *)
 (* Fixed: order in which reusable_storage::alloc grows (coro_storage.h:    *)
 (*   49-53).  FALSE: `delete(_ptr); _ptr = new(sz)` -- between the two     *)
 (*   calls _ptr holds the address of a released block.  TRUE: the new      *)
@@ -88,10 +105,19 @@ CONSTANTS Policies,   \* subset of {"default","reusable","mtsafe","stack","place
                       \* once a storage is prepared ahead every frame uses a prepared storage
           MaxThrows,  \* attached-object layer: bound on creations whose factory throws (at most one frame before
                       \* it, at most 2 frames in such a history)
-          ThrowFixed  \* promise_extra_storage::alloc gives the block back to its base when the factory throws
+          ThrowFixed, \* promise_extra_storage::alloc gives the block back to its base when the factory throws
                       \* (coro_storage.h:228-233 at the pinned tree does not: FALSE)
+          AreaOffs,   \* buffer, placement: addresses (mod 16) at which the memory of the caller may begin (the first
+                      \* element of the vector, `char buff[1000]`)
+          AlignUp,    \* FALSE: alloc returns data() / _p as it is (coro_storage.h:209, :139).  TRUE: the model of an
+                      \* alloc that rounds the address up to 16 without reserving room (must be rejected)
+          MaxDtor,    \* attached-object layer: bound on completions in which the destructor of the attached object
+                      \* is a step of its own, during which coroutines are created and completed
+          MaxDtorMoves, \* ... operations on storage objects (NewObj, MoveCtor, ...) before such a completion (none after it)
+          DtorFirst   \* promise_extra_storage::dealloc destroys the object BEFORE it gives the block back to the base
+                      \* policy (coro_storage.h:246-247: TRUE); FALSE: the model of the opposite order (must be rejected)
 
-VARIABLES env,    \* [pol, ex, init]: never changes
+VARIABLES env,    \* [pol, ex, init, boff]: never changes
           heap,   \* [1..NSlots -> Nat]: 0 = free, otherwise the size the block was requested with
           fr,     \* sequence of frame records in order of creation (= order in which alloc returned)
           objs,   \* [1..2 -> storage object record]
@@ -102,10 +128,11 @@ VARIABLES env,    \* [pol, ex, init]: never changes
           torn,   \* every storage object has been destroyed
           prep,   \* stack: sizes the storages prepared ahead were given (what their owner alloca'd)
           nmov, nown,
-          nthrow  \* factory exceptions that reached the creator of the coroutine
+          nthrow, \* factory exceptions that reached the creator of the coroutine
+          ndtor   \* completions so far whose attached object's destructor was a step of its own
 
-vars == <<env, heap, fr, objs, busy, pc, news, dels, dbl, torn, prep, nmov, nown, nthrow>>
-Rest == <<prep, nmov, nown, nthrow>>
+vars == <<env, heap, fr, objs, busy, pc, news, dels, dbl, torn, prep, nmov, nown, nthrow, ndtor>>
+Rest == <<prep, nmov, nown, nthrow, ndtor>>
 
 Policy == env.pol
 Ex == env.ex
@@ -133,6 +160,7 @@ ptr == objs[1].ptr                    \* the thread-safe storage is always objec
 cap == objs[1].cap
 
 Live == {i \in 1..Len(fr) : fr[i].live}
+Dying == {i \in Live : fr[i].eo = "dying"}       \* ~T of the attached object is running (DtorBegin .. DtorEnd)
 LiveOn(o) == {i \in Live : fr[i].o = o}
 Creating == {t \in Threads : pc[t].at \in {"new_heap", "del_old", "new_shared", "del_after"}}
 
@@ -176,21 +204,30 @@ VecShrink(S) ==
 BufAlloc(S, sz) == IF S.cap < sz THEN VecResize(S, sz) ELSE S
 
 (* ---- frames ---- *)
+(* Address alloc returns, as offset from the first byte of the area the policy owns for the frame.  Every policy
+   returns the beginning of its area as it is: `return _ptr` coro_storage.h:57, `return _p` :139, `return _alloc_ptr`
+   alloca_storage.h:42, the result of operator new with_allocator.h:85 / coro_storage.h:161 / alloca_storage.h:44, and
+   `return _buff.data()` coro_storage.h:209 -- wherever the memory of the caller lies (env.boff). *)
+CallersMemory == {"buffer", "placement"}
+AllocAt == IF Policy \in CallersMemory /\ AlignUp THEN (16 - env.boff) % 16 ELSE 0
+
 Rec(c, o, w, s, b, t, sh) ==
-    [c |-> c, o |-> o, live |-> TRUE, where |-> w, slot |-> s, blk |-> b, tr |-> t, sh |-> sh,
+    [c |-> c, o |-> o, live |-> TRUE, where |-> w, slot |-> s, blk |-> b, at |-> AllocAt, tr |-> t, sh |-> sh,
      asz |-> BaseSz(c), dz |-> "live", eo |-> IF Ex THEN "obj" ELSE "none",
      ct |-> IF Ex THEN 1 ELSE 0, dt |-> 0]
 (* the base policy's dealloc is called with the size its alloc was called with: dz = "same" *)
 Gone(r) ==
-    [c |-> 0, o |-> 0, live |-> FALSE, where |-> "gone", slot |-> 0, blk |-> 0, tr |-> "gone", sh |-> FALSE,
+    [c |-> 0, o |-> 0, live |-> FALSE, where |-> "gone", slot |-> 0, blk |-> 0, at |-> 0, tr |-> "gone", sh |-> FALSE,
      asz |-> 0, dz |-> "same", eo |-> "gone",
      ct |-> r.ct, dt |-> r.dt + (IF Ex THEN 1 ELSE 0)]
 
 BufInit == IF InitSize = 0 THEN 0 ELSE InitSize + Trailer    \* a buffer that just fits a frame of that class
 
-Init == /\ env \in {[pol |-> p, ex |-> x, init |-> i] : p \in Policies, x \in BOOLEAN,
-                                                       i \in UNION {InitChoices(q) : q \in Policies}}
+Init == /\ env \in {[pol |-> p, ex |-> x, init |-> i, boff |-> b] : p \in Policies, x \in BOOLEAN,
+                                                       i \in UNION {InitChoices(q) : q \in Policies},
+                                                       b \in AreaOffs \cup {0}}
         /\ env.init \in InitChoices(env.pol)
+        /\ env.boff \in (IF env.pol \in CallersMemory THEN AreaOffs ELSE {0})
         /\ env.ex => env.pol \in ExPolicies
         /\ heap = [s \in Slots |-> IF Policy = "buffer" /\ InitSize > 0 /\ s = 1 THEN BufInit ELSE 0]
         /\ objs = [o \in 1..2 |->
@@ -205,7 +242,7 @@ Init == /\ env \in {[pol |-> p, ex |-> x, init |-> i] : p \in Policies, x \in BO
         /\ busy = FALSE
         /\ pc = [t \in Threads |-> Idle]
         /\ news = 0 /\ dels = 0 /\ dbl = 0
-        /\ torn = FALSE /\ nmov = 0 /\ nown = 0 /\ nthrow = 0
+        /\ torn = FALSE /\ nmov = 0 /\ nown = 0 /\ nthrow = 0 /\ ndtor = 0
         /\ prep = <<>>
 
 (* ---- policies whose alloc / dealloc contain no scheduling point: <<store', frame record>> ---- *)
@@ -322,7 +359,7 @@ Del(t) ==
    reusable_storage_mtsafe::dealloc, coro_storage.h:166-174, reads the owner
    pointer behind the frame and compares the frame's address with the owner's _ptr. *)
 Complete(t, f) ==
-    /\ ~torn /\ At(t, "idle") /\ f \in Live
+    /\ ~torn /\ At(t, "idle") /\ f \in Live \ Dying
     /\ fr' = [fr EXCEPT ![f] = Gone(@)]
     /\ UNCHANGED <<env, torn, Rest>>
     /\ IF Policy = "mtsafe"
@@ -334,6 +371,37 @@ Complete(t, f) ==
                        THEN Park(t, "delete", 0, fr[f].slot) /\ Same /\ UNCHANGED busy
                        ELSE Commit(1, DoDel(St(1), fr[f].slot)) /\ UNCHANGED <<busy, pc>>
          ELSE CommitH(SeqComplete(f)) /\ UNCHANGED <<objs, busy, pc>>
+
+(* The completion of a frame under the attached-object layer in two steps, promise_extra_storage::dealloc,
+   coro_storage.h:244-248:
+     DtorBegin  the frame is destructed, `x->~T()` (:246) is entered.  The destructor is code of the user: until it
+                returns (DtorEnd) coroutines are created and completed -- by the destructor itself, or, on a
+                reusable_storage_mtsafe, by another thread: the states are the same -- on the same storage as well
+                (where the base policy permits a second live frame: CanCreate).  The object being destroyed lives in
+                the frame's block: the block is still the frame's (f stays in Live, eo = "dying").
+     DtorEnd    ~T has returned; `Alloc::dealloc(ptr, sz+sizeof(T))` (:247) gives the block back to the base policy.
+   DtorFirst = FALSE is the model of the opposite order (block given back, then ~T). *)
+(* histories with such a step are otherwise plain ones: frames created and completed, at most MaxDtorMoves operations
+   on storage objects (a second storage constructed, the first one moved) before it and none after it *)
+Plain == nmov <= MaxDtorMoves /\ nown = 0 /\ nthrow = 0 /\ prep = <<>>
+GiveBack(f) ==      \* the base policy's dealloc at grain "call" (what Complete does in one step with the rest)
+    IF Policy = "mtsafe"
+      THEN IF fr[f].slot = ptr THEN busy' = FALSE /\ Same
+           ELSE Commit(1, DoDel(St(1), fr[f].slot)) /\ UNCHANGED busy
+      ELSE CommitH(SeqComplete(f)) /\ UNCHANGED <<objs, busy>>
+DtorBegin(t, f) ==
+    /\ Ex /\ Grain = "call" /\ ndtor < MaxDtor
+    /\ Plain
+    /\ ~torn /\ At(t, "idle") /\ f \in Live /\ Dying = {}
+    /\ ndtor' = ndtor + 1
+    /\ fr' = [fr EXCEPT ![f].eo = "dying", ![f].dz = IF DtorFirst THEN "live" ELSE "same"]
+    /\ IF DtorFirst THEN Same /\ UNCHANGED busy ELSE GiveBack(f)
+    /\ UNCHANGED <<env, pc, torn, prep, nmov, nown, nthrow>>
+DtorEnd(t, f) ==
+    /\ At(t, "idle") /\ f \in Dying
+    /\ fr' = [fr EXCEPT ![f] = Gone(@)]
+    /\ IF DtorFirst THEN GiveBack(f) ELSE Same /\ UNCHANGED busy
+    /\ UNCHANGED <<env, pc, torn, Rest>>
 
 (* `me->_busy.store(false)`, coro_storage.h:170 *)
 Store(t) ==
@@ -350,10 +418,10 @@ Store(t) ==
    may be used again once its block is free (e.g. after its first frame fell back to the heap). *)
 Occupied(i) == \E f \in Live : fr[f].where = "stack" /\ fr[f].slot = i
 Prepare ==
-    /\ Policy = "stack" /\ ~torn /\ Len(prep) < MaxPrep
+    /\ Policy = "stack" /\ ~torn /\ Len(prep) < MaxPrep /\ ndtor = 0
     /\ Live = {} /\ (prep = <<>> => Len(fr) <= 1)
     /\ prep' = Append(prep, cap)
-    /\ UNCHANGED <<env, heap, fr, objs, busy, pc, news, dels, dbl, torn, nmov, nown, nthrow>>
+    /\ UNCHANGED <<env, heap, fr, objs, busy, pc, news, dels, dbl, torn, nmov, nown, nthrow, ndtor>>
 CreateP(t, c, i) ==
     /\ Policy = "stack" /\ i \in 1..Len(prep) /\ ~Occupied(i)
     /\ CanCreate(t, c, 1)
@@ -374,10 +442,10 @@ MtAllocCall(sz) ==       \* reusable_storage_mtsafe::alloc as one step: <<store'
     ELSE IF sz <= cap THEN <<St(1), ptr, TRUE>>
     ELSE LET S == Grow(St(1), sz) IN <<S, S.ptr, TRUE>>
 CreateThrow(t, c) ==
-    /\ Ex /\ Grain = "call" /\ nthrow < MaxThrows /\ prep = <<>> /\ Len(fr) <= 1
+    /\ Ex /\ Grain = "call" /\ nthrow < MaxThrows /\ prep = <<>> /\ Len(fr) <= 1 /\ ndtor = 0
     /\ CanCreate(t, c, 1)
     /\ nthrow' = nthrow + 1
-    /\ UNCHANGED <<env, fr, pc, torn, prep, nmov, nown>>
+    /\ UNCHANGED <<env, fr, pc, torn, prep, nmov, nown, ndtor>>
     /\ IF Policy = "mtsafe"
          THEN LET a == MtAllocCall(Req(c)) IN
               IF a[3] THEN Commit(1, a[1]) /\ busy' = ~ThrowFixed          \* exchange set it, only dealloc clears it
@@ -395,14 +463,14 @@ CreateThrow(t, c) ==
 (* reusable_storage is movable (coro_storage.h:33-43); with the attached-object layer the factory and
    `inventory` travel along.  Storage objects are constructed, moved and destroyed while no frame is alive. *)
 Quiet == ~torn /\ Live = {} /\ \A t \in Threads : At(t, "idle")
-MoveOK == Movable /\ Quiet /\ nmov < MaxMoves
+MoveOK == Movable /\ Quiet /\ nmov < MaxMoves /\ ndtor = 0
 
 (* a second, default constructed storage *)
 NewObj ==
     /\ MoveOK /\ objs[2].st = "none"
     /\ objs' = [objs EXCEPT ![2] = [st |-> "live", ptr |-> 0, cap |-> 0, inv |-> 0, fac |-> TRUE]]
     /\ nmov' = nmov + 1
-    /\ UNCHANGED <<env, heap, fr, busy, pc, news, dels, dbl, torn, nown, prep, nthrow>>
+    /\ UNCHANGED <<env, heap, fr, busy, pc, news, dels, dbl, torn, nown, prep, nthrow, ndtor>>
 
 (* reusable_storage b(std::move(a)), coro_storage.h:33-35: block and capacity go to the new object together *)
 MoveCtor ==
@@ -410,14 +478,14 @@ MoveCtor ==
     /\ objs' = [objs EXCEPT ![2] = [objs[1] EXCEPT !.st = "live"],
                             ![1] = [objs[1] EXCEPT !.ptr = 0, !.cap = 0, !.fac = ~Ex]]
     /\ nmov' = nmov + 1
-    /\ UNCHANGED <<env, heap, fr, busy, pc, news, dels, dbl, torn, nown, prep, nthrow>>
+    /\ UNCHANGED <<env, heap, fr, busy, pc, news, dels, dbl, torn, nown, prep, nthrow, ndtor>>
 
 (* d = std::move(s), coro_storage.h:36-43: d's block is released, (block, capacity) of s move to d, s is empty;
    self-assignment changes nothing *)
 MoveAssign(s, d) ==
     /\ MoveOK /\ objs[s].st = "live" /\ objs[d].st = "live"
     /\ nmov' = nmov + 1
-    /\ UNCHANGED <<env, fr, busy, pc, torn, nown, prep, nthrow>>
+    /\ UNCHANGED <<env, fr, busy, pc, torn, nown, prep, nthrow, ndtor>>
     /\ IF s = d THEN Same
        ELSE /\ CommitH(DoDel(St(d), objs[d].ptr))
             /\ objs' = [objs EXCEPT ![d] = [objs[s] EXCEPT !.st = "live"],
@@ -429,14 +497,14 @@ Drop(o) ==
     /\ CommitH(DoDel(St(o), objs[o].ptr))
     /\ objs' = [objs EXCEPT ![o] = [NoObj EXCEPT !.st = "dead"]]
     /\ nmov' = nmov + 1
-    /\ UNCHANGED <<env, fr, busy, pc, torn, nown, prep, nthrow>>
+    /\ UNCHANGED <<env, fr, busy, pc, torn, nown, prep, nthrow, ndtor>>
 
 -----------------------------------------------------------------------------
 (* reusable_buffer_storage does not own its buffer: while no coroutine is active the owner may do with the
    vector what it likes (coro_storage.h:184-192).  Sizes are those of the frame classes. *)
-OwnOK == Policy = "buffer" /\ Quiet /\ nown < MaxOwner
+OwnOK == Policy = "buffer" /\ Quiet /\ nown < MaxOwner /\ ndtor = 0
 OwnDone(S) == /\ Commit(1, S) /\ nown' = nown + 1
-              /\ UNCHANGED <<env, fr, busy, pc, torn, nmov, prep, nthrow>>
+              /\ UNCHANGED <<env, fr, busy, pc, torn, nmov, prep, nthrow, ndtor>>
 
 OwnerResize(k) ==          \* buf.resize(n): smaller keeps the block, larger may reallocate
     /\ OwnOK /\ k \in Classes /\ Req(k) # cap
@@ -472,7 +540,7 @@ Teardown ==
 Next == \/ \E t \in Threads, c \in 1..3 : Create(t, c) \/ CreateB(t, c) \/ CreateThrow(t, c)
         \/ \E t \in Threads, c \in 1..3, i \in 1..2 : CreateP(t, c, i)
         \/ Prepare
-        \/ \E t \in Threads, f \in 1..MaxCreate : Complete(t, f)
+        \/ \E t \in Threads, f \in 1..MaxCreate : Complete(t, f) \/ DtorBegin(t, f) \/ DtorEnd(t, f)
         \/ \E t \in Threads : New(t) \/ Del(t) \/ Store(t)
         \/ NewObj \/ MoveCtor
         \/ \E s, d \in 1..2 : MoveAssign(s, d)
@@ -519,9 +587,10 @@ BookkeepingTruthful ==
     /\ objs[1].ptr # 0 => objs[1].ptr # objs[2].ptr
     /\ \A o \in 1..2 : objs[o].st # "live" => objs[o].ptr = 0
 
-(* the memory is at least as large as the frame plus everything the policy puts behind it, whatever
+(* the frame plus everything the policy puts behind it, [at, at + size), lies inside the area the policy owns for it
+   (heap block, the vector's elements, alloca block, placement buffer), wherever that area begins and whatever
    happened to the storage object or to the buffer while no frame was alive *)
-LargeEnough == \A f \in Live : fr[f].blk >= Sz(fr[f].c) + Trailer
+LargeEnough == \A f \in Live : fr[f].at + Sz(fr[f].c) + Trailer <= fr[f].blk
 
 (* the base policy's dealloc is told the size its alloc was told *)
 SizeRoundTrip == \A i \in 1..Len(fr) : IF fr[i].live THEN fr[i].asz = BaseSz(fr[i].c) /\ fr[i].dz = "live"
@@ -570,8 +639,16 @@ ReuseBlock ==
 ExtraCtorDtorOnce ==
     \A i \in 1..Len(fr) :
         IF Ex
-          THEN fr[i].ct = 1 /\ fr[i].dt = (IF fr[i].live THEN 0 ELSE 1) /\ (fr[i].live => fr[i].eo = "obj")
+          THEN fr[i].ct = 1 /\ fr[i].dt = (IF fr[i].live THEN 0 ELSE 1) /\ (fr[i].live => fr[i].eo \in {"obj", "dying"})
           ELSE fr[i].ct = 0 /\ fr[i].dt = 0
+
+(* attached object: while its destructor runs it lies in memory that is still the frame's alone -- the block has
+   not gone back to the base policy (Exclusive, BlockAlive, MtSafeNeverShares count the frame as live till DtorEnd) *)
+ExtraDiesInOwnBlock ==
+    \A f \in Dying : /\ fr[f].dz = "live"
+                      /\ (fr[f].where = "heap" => heap[fr[f].slot] # 0)
+                      /\ ((Policy = "mtsafe" /\ fr[f].sh) => busy)
+                      /\ Cardinality(Dying) = 1
 
 (* attached object: as soon as the coroutine object exists the storage it was created on designates it *)
 ExtraUsableAtCreation ==
@@ -591,7 +668,7 @@ WarmNoAlloc ==
 
 (* completion of a frame never allocates; for the single-block policies it releases nothing *)
 CompleteNoAlloc ==
-    [][\A t \in Threads, f \in 1..MaxCreate : Complete(t, f) => news' = news]_vars
+    [][\A t \in Threads, f \in 1..MaxCreate : (Complete(t, f) \/ DtorBegin(t, f) \/ DtorEnd(t, f)) => news' = news]_vars
 
 (* moving storage objects around never allocates, and releases only the block of an assigned-to object *)
 MoveNoAlloc == [][nmov' > nmov => news' = news]_vars
